@@ -9,6 +9,7 @@ use proto::*;
 mod bio;
 mod chan_adm;
 mod chan_bundle;
+mod chan_cli;
 mod chan_corrupt;
 mod chan_eid;
 mod chan_ffi;
@@ -53,6 +54,7 @@ fn run_line(line: &str) -> String {
         "SCHED" => chan_now::sched(args),
         "VALIDATE" => chan_ops::validate(args),
         "OPS" => chan_ops::ops(args),
+        "CLI" => chan_cli::cli(args),
         "ID" => chan_id::id(args),
         "IDPAIR" => chan_id::idpair(args),
         "IDREF" => chan_id::idref(args),
